@@ -429,6 +429,37 @@ func (e *Exec) open(o Opts, first bool) {
 		}
 		e.store, e.coll = st, c
 		e.fs.MarkOp("open", e.lb, false)
+	case "direct":
+		// The application drives Store.Persist itself (single threaded, from its
+		// own LowerLevelUpdate) and chooses the persist options of every round.
+		so, _ := e.storeOptions(o)
+		st, err := moss.OpenStore(e.fs.Dir, so)
+		if err != nil {
+			e.failD("open-error", map[string]string{"symptom": "open-error"}, "OpenStore: %v", err)
+		}
+		init, err := st.Snapshot()
+		if err != nil {
+			e.fail("open-error", "Store.Snapshot: %v", err)
+		}
+		co := e.collOptions(o)
+		co.LowerLevelInit = init
+		co.LowerLevelUpdate = func(higher moss.Snapshot) (moss.Snapshot, error) {
+			concern := moss.CompactionDisable
+			switch x := simrt.Choose(10, "round-concern"); {
+			case x >= 8:
+				concern = moss.CompactionForce
+			case x >= 6:
+				concern = moss.CompactionAllow
+			}
+			return st.Persist(higher, moss.StorePersistOptions{NoSync: o.NoSync, CompactionConcern: concern})
+		}
+		c, err := moss.NewCollection(co)
+		if err != nil {
+			e.fail("open-error", "NewCollection: %v", err)
+		}
+		c.Start()
+		e.store, e.coll = st, c
+		e.fs.MarkOp("open", e.lb, false)
 	case "mapll":
 		if e.ll == nil {
 			e.ll = newMapLL(e)
@@ -990,7 +1021,7 @@ func (e *Exec) drain() bool {
 // reopen: close collection and store, open again (possibly with new options),
 // and check the reopened content (C04).
 func (e *Exec) reopen(op Op) {
-	if e.opts.Backing != "store" {
+	if !e.isStore() {
 		return
 	}
 	wasDrained := e.drained
@@ -1095,7 +1126,7 @@ func (e *Exec) finish() {
 	if e.flag("finalVerify") && e.collOpen {
 		e.checkColl("final")
 	}
-	if e.flag("finalReopen") && e.opts.Backing == "store" && e.collOpen {
+	if e.flag("finalReopen") && e.isStore() && e.collOpen {
 		e.reopen(Op{})
 		e.checkColl("final-reopen")
 	}
@@ -1117,7 +1148,7 @@ func (e *Exec) finish() {
 	}
 	if leak {
 		e.checkLeaks()
-	} else if e.flag("dirCheck") && e.opts.Backing == "store" {
+	} else if e.flag("dirCheck") && e.isStore() {
 		e.checkDirectory("after closing everything")
 	}
 }
@@ -1155,3 +1186,7 @@ func (e *Exec) tryOversize(b moss.Batch) {
 		e.probe("oversize-value-rejected")
 	}
 }
+
+// isStore: the lower level is a mossStore (opened through OpenStoreCollection
+// or driven directly by the application).
+func (e *Exec) isStore() bool { return e.opts.Backing == "store" || e.opts.Backing == "direct" }
